@@ -169,7 +169,7 @@ def run_alias(spec, tier, mg):
         "asarray": lambda x, **k: mg.asarray(x, **{kk: v for kk, v in k.items() if kk in ("dtype",)}),
     }
     for mname, mk in makers.items():
-        for skind in ("array", "tensor", "tensor-graph", "tensor-grad", "list", "scalar", "array0d", "int-array"):
+        for skind in ("array", "tensor", "tensor-graph", "tensor-grad", "list", "scalar", "array0d", "int-array", "array-T", "array-strided", "array-F", "tensor-T"):
             for copy in (None, True, False):
                 if mname in ("astensor", "asarray") and copy is not None:
                     continue
@@ -178,7 +178,9 @@ def run_alias(spec, tier, mg):
                         if mname == "asarray" and constant is not None:
                             continue
                         lib.reset_state()
-                        raw = {"array": np.array([1.0, 2.0]), "array0d": np.array(2.0), "int-array": np.array([1, 2])}.get(skind, np.array([1.0, 2.0]))
+                        raw = {"array": np.array([1.0, 2.0]), "array0d": np.array(2.0), "int-array": np.array([1, 2]),
+                               "array-T": np.arange(6.0).reshape(2, 3).T, "tensor-T": np.arange(6.0).reshape(2, 3).T, "array-strided": np.arange(6.0)[::2],
+                               "array-F": np.asfortranarray(np.arange(6.0).reshape(2, 3))}.get(skind, np.array([1.0, 2.0]))
                         if skind == "list":
                             src = [1.0, 2.0]
                         elif skind == "scalar":
